@@ -227,7 +227,7 @@ def unit_norm_sites(fi, prog=None, _depth=1):
                         out.append((n, False if isinstance(ax, ast.Constant) else None, f"pivot searched along axis `{src(ax) if ax is not None else None}` but used as index {pos_}"))
                     elif bare and pos_ != 0:
                         out.append((n, False, f"the pivots of the rows (argmax along axis 1) are broadcast along the last axis: element (i, j) is divided by the pivot of row j, not of row i"))
-                    elif dump(expand(fi, inner)) != dump(expand(fi, den_x.value)) or dump(expand(fi, base)) != dump(expand(fi, den_x.value)):
+                    elif dump(expand(fi, inner)) != dump(expand(fi, den_x.value)) or (dump(expand(fi, base)) != dump(expand(fi, den_x.value)) and dump(expand(fi, num_x)) != dump(expand(fi, den_x.value))):
                         out.append((n, False, f"the largest-magnitude components are searched in `{src(inner)}` / taken from `{src(den_x.value)}` but `{src(base)}` is normalised"))
                     else:
                         out.append((n, True, f"`{src(numr)}` divided column-wise by its own components at argmax(abs(.), axis={pos_})"))
@@ -1072,6 +1072,22 @@ def _prune_ifexp(s, consts):
     return ast.fix_missing_locations(T().visit(copy.deepcopy(s)))
 
 
+def attr_stores(fnode, text):
+    """[(statement, value)] for every plain store into the attribute written `text` (`self.datasets`), tuple assignments included"""
+    out = []
+    for st in ast.walk(fnode):
+        if not isinstance(st, ast.Assign):
+            continue
+        for t in st.targets:
+            if isinstance(t, ast.Attribute) and src(t) == text:
+                out.append((st, st.value))
+            elif isinstance(t, (ast.Tuple, ast.List)) and isinstance(st.value, (ast.Tuple, ast.List)) and len(t.elts) == len(st.value.elts):
+                for tt, vv in zip(t.elts, st.value.elts):
+                    if isinstance(tt, ast.Attribute) and src(tt) == text:
+                        out.append((st, vv))
+    return out
+
+
 def alias_root(fnode, name, limit=12):
     """the variable `name` is a plain copy of: follows `name = other` while `name` is bound exactly once in the function"""
     seen = set()
@@ -1689,7 +1705,15 @@ def attr_store_status(fi, at_node, attr_src):
                 else:
                     pairs.append((t, n.value))
             for t, v in pairs:
-                if isinstance(t, ast.Attribute) and src(t) == attr_src:
+                if not isinstance(t, ast.Attribute):
+                    continue
+                hit = src(t) == attr_src
+                if not hit and attr_src.endswith("." + t.attr) and isinstance(t.value, ast.Name) and t.value.id != "self":
+                    # stored through a local name for the object (prm = self.run_params; prm.rtol = rtol)
+                    load_ = copy.deepcopy(t.value)
+                    load_.ctx = ast.Load()
+                    hit = src(expr_at(fi, n, load_)) + "." + t.attr == attr_src
+                if hit:
                     if here is not None and pos[id(n)] < here:
                         before = (n, v)
                     elif after is None:
